@@ -15,6 +15,8 @@ fuzz_target!(|data: &[u8]| {
         return;
     }
     let p = Program { family: "soup", src, ast: None, ctx };
+    // crash triage: when VERIF_JOURNAL_DIR is set the case in flight is kept on disk in replay format
+    vcore::journal("C01", || p.case_json());
     if let Err(pi) = vcore::catch(|| vchecks::c01::exercise(&p.src, &p.ctx)) {
         shared::report(
             "C01",
